@@ -141,8 +141,26 @@ Fixpoint fy_loop (cnt : nat) (i : Z) (l : list example) (ds : list draw) : optio
 (* the loop header (first index, number of iterations, whether the unsigned index wraps when
    skip = 0) and the early return are regenerated; index arithmetic of the header is in plain Z:
    an index outside the array is an error outcome whether or not it wrapped *)
+(* the statements after the loop: schema-only steps (clone_schema copies columns and class map,
+   the examples are untouched) are the identity on this state; what remains must be
+   "copy the tail to validation, erase it from training", which is what the last branch models *)
+Definition tail_tok_eqb (a b : tail_tok) : bool :=
+  match a, b with
+  | TCloneSchema, TCloneSchema | TCopyTail, TCopyTail | TEraseTail, TEraseTail => true
+  | _, _ => false
+  end.
+Fixpoint tail_eqb (a b : list tail_tok) : bool :=
+  match a, b with
+  | [], [] => true
+  | x :: a', y :: b' => tail_tok_eqb x y && tail_eqb a' b'
+  | _, _ => false
+  end.
+Definition holdout_tail_ok : bool :=
+  tail_eqb (filter (fun t => negb (tail_tok_eqb t TCloneSchema)) gen_holdout_tail) [TCopyTail; TEraseTail].
+
 Definition holdout_init (c : config) (run : Z) (st : state) (ds : list draw) : option (state * list draw) :=
   if gen_holdout_early_return run then Some (st, ds)
+  else if negb holdout_tail_ok then None              (* the source is no longer the modelled one *)
   else
     let available := zlen (training st) in
     let skip := holdout_skip available (perc c) in
@@ -172,8 +190,16 @@ Definition weight_sum (l : list example) : Z := fold_left (fun s e => (s + weigh
 Definition clear_t (st : state) : state := mkSt (training st) (validation st) (clr_t st + 1) (clr_v st).
 Definition clear_v (st : state) : state := mkSt (training st) (validation st) (clr_t st) (clr_v st + 1).
 
-Definition move_to_validation (st : state) : state :=
-  mkSt [] (validation st ++ training st) (clr_t st) (clr_v st).
+(* dss::move_to_validation: the regenerated statement sequence, interpreted (clone_schema is
+   the identity on the examples) *)
+Fixpoint run_move (l : list move_tok) (st : state) : state :=
+  match l with
+  | [] => st
+  | MCloneSchema :: l' => run_move l' st
+  | MMoveAll :: l' => run_move l' (mkSt (training st) (validation st ++ training st) (clr_t st) (clr_v st))
+  | MClearTraining :: l' => run_move l' (mkSt [] (validation st) (clr_t st) (clr_v st))
+  end.
+Definition move_to_validation (st : state) : state := run_move gen_move_steps st.
 
 Definition tok_eqb (a b : shape_tok) : bool :=
   match a, b with
